@@ -32,6 +32,12 @@ def sample_try(o):
             "eval_under_completions": [e["res"] for e in t.get("evals", [])][:4]}
 
 
+def steps(nq, nt):
+    """step-level trace validation of the engine's Debug stream against Machine!EvalNext / TryNext (spec/TraceSteps.tla)"""
+    return {"quick": ["events", "-exh", "1", "-exhmax", "40", "-n", str(nq), "-depth", "5", "-seed", "{seed}", "-progevery", "1"],
+            "thorough": ["events", "-exh", "2", "-exhmax", "1500", "-n", str(nt), "-depth", "6", "-seed", "{seed}", "-progevery", "1"]}
+
+
 PLANS = {
     "C01": {
         "mc": {"quick": [{"module": "MCEval", "cfg": "cfg/MCEval.C01.quick.cfg", "emit_cases": "cases.ndjson"}],
@@ -42,6 +48,7 @@ PLANS = {
                                          "-seed", "{seed}", "-progevery", "40"]}]},
         "judge": jeval(),
         "replay_args": ["eval", "-for", "C01", "-n", "0", "-progevery", "1"],
+        "step_trace": steps(150, 4000),
         "rule": "one evaluation = (source tree, compile mode in {registered, undefined-variable, directive}, binding) with "
                 "optimizations off; judged: Eval/EvalBool outcome = Den(tree, binding) incl. sentinel error identity; "
                 "non-trivial = the evaluation fails or short-circuits past a failing operand; trees are distinct by source text",
@@ -56,6 +63,7 @@ PLANS = {
                                          "-seed", "{seed}", "-progevery", "200"]}]},
         "judge": jeval(),
         "replay_args": ["eval", "-for", "C02", "-n", "0", "-progevery", "1"],
+        "step_trace": steps(150, 4000),
         "rule": "one evaluation = (source tree, variant, binding); variants = all 16 optimization subsets given by options, "
                 "plus subsets given by ;;;; directives / directives overriding options, plus Reordering under cost maps "
                 "(negative, zero, huge, Inf, NaN); judged: pairwise agreement, total => all = Den, no-reordering => Den, "
@@ -72,6 +80,7 @@ PLANS = {
                                          "-seed", "{seed}", "-progevery", "100"]}]},
         "judge": jeval(),
         "replay_args": ["eval", "-for", "C03", "-n", "0", "-progevery", "1"],
+        "step_trace": steps(150, 4000),
         "rule": "one evaluation = (source tree, option subset / cost map, binding of all variables); judged: the ordered log "
                 "of VariableFetcher.Get and registered-operator calls (name, parameters, result) is a log of left-to-right "
                 "short-circuit evaluation of the tree parsed back from the real Dump (Semantics!Match, with the permitted "
@@ -104,6 +113,7 @@ PLANS = {
                                          "-seed", "{seed}", "-progevery", "50"]}]},
         "judge": jtry(),
         "replay_args": ["try", "-for", "C04", "-n", "0", "-progevery", "1"],
+        "step_trace": steps(150, 4000),
         "rule": "one evaluation = (source tree, option subset / cost map, binding, available/unavailable split) with Eval "
                 "run under up to 8 completions of the unavailable variables; judged: Sound (definite TryEval = Eval under "
                 "every completion for which Eval succeeds), AgreeWhenAll, Monotone over the recorded splits, TryEvalBool "
@@ -126,6 +136,7 @@ PLANS = {
                                          "-seed", "{seed}", "-progevery", "50"]}]},
         "judge": jtry(),
         "replay_args": ["try", "-for", "C05", "-n", "0", "-progevery", "1"],
+        "step_trace": steps(150, 4000),
         "rule": "one evaluation = (source tree, option subset / cost map, binding, available/unavailable split); judged on "
                 "expressions none of whose sub-expressions fail: Kleene definite => TryEval returns it, Kleene unknown => "
                 "DNE or a definite value (never an error), TryEvalBool = ErrDNE exactly for DNE; splits realised by the "
@@ -142,6 +153,7 @@ PLANS = {
                   "thorough": [{"args": ["events", "-cases", "{S}/cases.ndjson", "-exh", "2", "-exhmax", "5000", "-n", "20000", "-depth", "5",
                                          "-seed", "{seed}", "-progevery", "40"]}]},
         "judge": {"module": "JudgeEvents", "cfg": "JudgeEvents.cfg"},
+        "step_trace": {"reuse": True},
         "replay_args": ["events", "-n", "0", "-progevery", "1"],
         "rule": "one evaluation = (source tree, option subset, ReportEvent or Debug, binding, call in {Eval under a consumer that "
                 "copies on receipt / reads a buffered channel after the call / retains events un-copied, TryEval}); judged: "
